@@ -21,6 +21,10 @@ struct AllocRec { void* p; size_t size; int live; };
 static const int ALLOC_CAP = 1 << 15;
 struct AllocTrack {
   volatile int on = 0;
+  // content of freshly allocated (malloc / aligned_alloc / posix_memalign / grown realloc) memory: it is indeterminate, so the
+  // harness decides it - -1 leaves whatever the allocator returns, 0..255 fills the block with that byte (calloc stays zero)
+  volatile int poison = -1;
+  void fresh(void* p, size_t s) { if (poison >= 0 && p && s) memset(p, poison, s); }
   int n = 0;
   long allocs = 0, frees = 0, unknown_frees = 0;
   // arena mode (Engine B): page-granular blocks carved from one mapping so that they can be sealed
@@ -52,9 +56,10 @@ inline AllocTrack& alloc_track() { static AllocTrack t; return t; }
 extern "C" {
 void* __wrap_malloc(size_t s) {
   vf::AllocTrack& t = vf::alloc_track();
-  if (t.on && t.arena) { void* p = t.arena_alloc(16, s); if (p) t.add(p, s); return p; }
+  if (t.on && t.arena) { void* p = t.arena_alloc(16, s); if (p) t.add(p, s); t.fresh(p, s); return p; }
   void* p = __real_malloc(s);
   if (t.on && p) t.add(p, s);
+  t.fresh(p, s);
   return p;
 }
 void __wrap_free(void* p) {
@@ -65,9 +70,10 @@ void __wrap_free(void* p) {
 }
 void* __wrap_aligned_alloc(size_t a, size_t s) {
   vf::AllocTrack& t = vf::alloc_track();
-  if (t.on && t.arena) { void* p = t.arena_alloc(a, s); if (p) t.add(p, s); return p; }
+  if (t.on && t.arena) { void* p = t.arena_alloc(a, s); if (p) t.add(p, s); t.fresh(p, s); return p; }
   void* p = __real_aligned_alloc(a, s);
   if (t.on && p) t.add(p, s);
+  t.fresh(p, s);
   return p;
 }
 void* __wrap_calloc(size_t n, size_t s) {
@@ -81,6 +87,7 @@ void* __wrap_realloc(void* q, size_t s) {
   vf::AllocTrack& t = vf::alloc_track();
   if (t.in_arena(q) || (t.on && t.arena)) {
     void* p = t.arena_alloc(16, s);
+    t.fresh(p, s);
     if (p && q) { size_t old = 0; for (int i = t.n - 1; i >= 0; --i) if (t.rec[i].p == q) { old = t.rec[i].size; break; } memcpy(p, q, old < s ? old : s); }
     if (t.on) { t.del(q); if (p) t.add(p, s); }
     return p;
@@ -91,9 +98,10 @@ void* __wrap_realloc(void* q, size_t s) {
 }
 int __wrap_posix_memalign(void** r, size_t a, size_t s) {
   vf::AllocTrack& t = vf::alloc_track();
-  if (t.on && t.arena) { void* p = t.arena_alloc(a, s); if (!p) return 12; *r = p; t.add(p, s); return 0; }
+  if (t.on && t.arena) { void* p = t.arena_alloc(a, s); if (!p) return 12; *r = p; t.add(p, s); t.fresh(p, s); return 0; }
   int rc = __real_posix_memalign(r, a, s);
   if (t.on && rc == 0) t.add(*r, s);
+  if (rc == 0) t.fresh(*r, s);
   return rc;
 }
 }
